@@ -679,11 +679,10 @@ class FileProcessTensor(BaseProcessTensor):
 
     def remove(self):
         """Delete the HDF5 file. """
-        self.close()
-        if self._removeable:
-            os.remove(self._filename)
-        else:
+        if not self._removeable:
             raise FileExistsError("This process tensor file cannot be removed.")
+        self.close()
+        os.remove(self._filename)
 
     def set_initial_tensor(
             self,
